@@ -202,10 +202,10 @@ def model_behaviour(h, cases, parsed, idx, state, tag):
     # in chunks, so that one failing shard (resource exhaustion in coqc) is located and reported,
     # not the whole sample lost
     res, failed = {}, []
-    CH = 240
+    CH = 480
     for k in range(0, len(exprs), CH):
         try:
-            outs = c.coq_eval_batch(REQ, "", exprs[k:k + CH], tag, shard=15)
+            outs = c.coq_eval_batch(REQ, "", exprs[k:k + CH], tag, shard=30)
             res.update(zip(keep[k:k + CH], outs))
         except c.BrokenTie as e:
             failed.append((k, e.detail[-300:]))
@@ -454,7 +454,7 @@ def main(argv):
     # --- model behaviour vs implementation (sample)
     cand = [i for i, (d, rep) in enumerate(zip(parsed, reports)) if rep and "VAL" in d and excuse(rep[1:10], state, "law", open_ids) is None
             and rep.split(" A1")[1][:4][want] == "1"]
-    n_beh = 300 if tier == "quick" else 3000
+    n_beh = 300 if tier == "quick" else 1200
     if len(cand) > n_beh:
         cand = sorted(rng.shuffle(cand)[:n_beh])
     beh_agree = beh_skip = 0
